@@ -10,6 +10,7 @@ import Driver.WriterStream
 import Driver.E2EStream
 import Driver.ConcStream
 import Driver.ParseStream
+import Driver.LeptondStream
 open Driver
 
 def main (args : List String) : IO UInt32 := do
@@ -36,4 +37,6 @@ def main (args : List String) : IO UInt32 := do
   | ["mon", "conc"] => runMon ConcStream.monInit ConcStream.monStep ConcStream.monFinish; return 0
   | ["model", "parse"] => runModel ParseStream.init ParseStream.step; return 0
   | ["mon", "parse"] => runMon ParseStream.init ParseStream.monStep ParseStream.monFinish; return 0
+  | ["model", "leptond"] => runModel LeptondStream.init LeptondStream.step; return 0
+  | ["mon", "leptond"] => runMon LeptondStream.init LeptondStream.monStep LeptondStream.monFinish; return 0
   | _ => IO.eprintln "usage: driver model|mon <stream>"; return 2
